@@ -325,6 +325,11 @@ func (ex *Exec) constGlobal(g *ssa.Global) *Val {
 	if g.Pkg == nil {
 		return nil
 	}
+	if ex.Hidden[g.Name()] && !ex.globalsOf(g.Pkg)[g] {
+		hv := ex.hiddenGlobal(g)
+		ex.globConst[g] = hv
+		return hv
+	}
 	if ex.globalsOf(g.Pkg)[g] {
 		return nil
 	}
